@@ -162,6 +162,19 @@ package m
 // and totals 0 or 255).
 //@ pred totalsOK(e *RoutingTableEntry) = len(e.Path.Hops) <= 255 && (len(e.Path.Hops) >= 2 ==> int(e.Path.TotalHops) == len(e.Path.Hops) - 1) && (len(e.Path.Hops) <= 1 ==> e.Path.TotalHops <= 1 || e.Path.TotalHops == 255)
 
+// Cleanup buckets (C11 "within the limit after a cleanup"): the bucket order never treats two different routing
+// prefixes as equal - also not two that share their base address (the own /18 and the region /16 of a router whose
+// country marker is all-zero) - so each prefix forms one run and is counted once; and the limit applied to a run is
+// that of the rule that admitted its routes (looked up by destination, as AddRoute does).
+//@ func RoutingTable.sortForCleaning$sortForCleaning$1
+//@   option clausesonly
+//@   requires a != nil && b != nil
+//@   ensures buckets-are-kept-apart [C11]: (a.RoutingPrefix.Addr() != b.RoutingPrefix.Addr() || a.RoutingPrefix.Bits() != b.RoutingPrefix.Bits()) ==> result != 0
+//@ func RoutingTable.Clean$Clean$2
+//@   option clausesonly
+//@   requires rte != nil
+//@   callsite RoutingTable.getRoutablePrefixConfig limit-of-the-rule-that-admitted-the-route [C11]: arg1 == rte.DstIP
+
 // Best-first order: destination, then fewest hops, then lowest delay.
 //@ func RoutingTable.stdSort
 //@   option nilrecv
